@@ -42,6 +42,7 @@ Qed.
 Section SortBy.
   Variable cmp : row -> row -> Z.
   Notation le a b := (cmp a b <= 0).
+  Notation ties := (ties cmp).
 
   Lemma insert_by_perm r : forall l, Permutation (insert_by cmp r l) (r :: l).
   Proof.
@@ -88,7 +89,6 @@ Section SortBy.
   Qed.
 
   (** stability: the rows that tie with [x] keep their input order *)
-  Notation ties := (ties cmp).
   Lemma insert_by_ties x r : In x D -> In r D -> forall l, Forall (fun y => In y D) l ->
     StronglySorted (fun a b => le a b) l ->
     filter (ties x) (insert_by cmp r l) = filter (ties x) (r :: l).
@@ -100,7 +100,7 @@ Section SortBy.
     destruct (ties x r) eqn:Er; [|reflexivity].
     destruct (ties x y) eqn:Ey; [|reflexivity].
     (* x ~ r and x ~ y, but r > y: contradiction with transitivity *)
-    exfalso. unfold ties in *. apply Z.eqb_eq in Er, Ey.
+    exfalso. unfold StreamSort.ties in *. apply Z.eqb_eq in Er, Ey.
     assert (A : le r x) by (rewrite (Hanti x r); lia).
     assert (B : le x y) by lia.
     pose proof (Htrans r x y Hr Hx Hy A B). lia.
